@@ -9,7 +9,17 @@ BASE = {
     'quiesce': 150.0,
 }
 
+SIMPLE_CHILDREN = {'ok': 0.86, 'exit_late': 0.06, 'backoff_then_ok': 0.04, 'ignore_stop': 0.04}
+
 PROFILES = {
+    'C01': dict(BASE, max_faults=5, min_faults=1, ops='none', child_kinds=SIMPLE_CHILDREN,
+                fault_weights={'crash': 2, 'restart': 4, 'partition': 3},
+                supvisors_failure_strategies=['CONTINUE', 'CONTINUE', 'RESYNC'], n_groups=[1, 2], n_programs=[1, 2, 3]),
+    'C08': dict(BASE, max_faults=5, min_faults=1, ops='direct', max_ops=2, child_kinds=SIMPLE_CHILDREN,
+                fault_weights={'crash': 2, 'restart': 4, 'partition': 2, 'child_exit': 2}, p_heal=1.0, p_final_heal=1.0,
+                quiesce=240.0, supvisors_failure_strategies=['CONTINUE', 'CONTINUE', 'RESYNC'],
+                p_trigger=0.5, trigger_states=['ELECTION', 'DISTRIBUTION', 'CONCILIATION', 'OPERATION'],
+                p_wait_exit=0.0, startsecs=[0, 1, 1, 2, 4], n_groups=[1, 2], n_programs=[1, 2, 3]),
     'C02': dict(BASE, max_faults=5, ops='fsm'),
     'C16': dict(BASE, max_faults=5, ops='all', p_absent=0.3, p_shared_node=0.5),
 }
@@ -32,7 +42,12 @@ def build(prop, seed):
 
 def observers_for(prop, scen):
     from oracles import common
+    from oracles import cluster
     obs = [common.InternalErrors(), common.StateGraph()]
+    if prop == 'C01':
+        obs.append(cluster.MasterConvergence())
+    elif prop == 'C08':
+        obs.append(cluster.Liveness())
     return obs
 
 
